@@ -742,6 +742,30 @@ pub fn arbitrary_float_subjects(tier: Tier, out: &mut Vec<Subj>) {
                 }
             }
         }
+        // bounds that are themselves infinite (written as a constant), with and without `finite`: with `finite` the
+        // valid set is non-empty but excludes the bound itself
+        let inf = |neg: bool| if is32 { Val::f32(if neg { f32::NEG_INFINITY } else { f32::INFINITY }) } else { Val::f64(if neg { f64::NEG_INFINITY } else { f64::INFINITY }) };
+        let one = if is32 { Val::f32(1.0) } else { Val::f64(1.0) };
+        let inf_shapes: Vec<Vec<Vd>> = vec![
+            vec![Vd::Finite, Vd::LessOrEqual(Bound { v: inf(false), form: Form::Const })],
+            vec![Vd::GreaterOrEqual(Bound { v: inf(true), form: Form::Const }), Vd::Finite],
+            vec![Vd::Finite, Vd::GreaterOrEqual(Bound { v: one.clone(), form: Form::Lit }), Vd::LessOrEqual(Bound { v: inf(false), form: Form::TyExtreme })],
+            vec![Vd::Less(Bound { v: inf(false), form: Form::Const }), Vd::Greater(Bound { v: inf(true), form: Form::Const })],
+            vec![Vd::LessOrEqual(Bound { v: inf(false), form: Form::Const })],
+        ];
+        for (k, vs) in inf_shapes.into_iter().enumerate() {
+            if tier == Tier::Quick && (k + is32 as usize) % 2 == 1 && k >= 3 {
+                continue;
+            }
+            let fin = vs.iter().any(|v| matches!(v, Vd::Finite));
+            let mut d = Decl::new("X", if is32 { Inner::F32 } else { Inner::F64 });
+            d.validation = Validation::Std(vs);
+            d.derives = vec![Tr::Debug, Tr::Clone, Tr::Copy, Tr::PartialEq, Tr::PartialOrd, Tr::Arbitrary, Tr::TryFrom, Tr::Into, Tr::Display, Tr::FromStr];
+            if fin {
+                d.derives.extend([Tr::Eq, Tr::Ord]);
+            }
+            out.push(Subj { decl: d, tag: "float/arb/infinite-bound".into(), serde_full: false });
+        }
         // finite only / no bounds
         let mut d = Decl::new("X", if is32 { Inner::F32 } else { Inner::F64 });
         d.validation = Validation::Std(vec![Vd::Finite]);
@@ -842,10 +866,6 @@ pub fn string_subjects(tier: Tier, out: &mut Vec<Subj>) {
     }
     // large length bounds: a character counter narrowed to u8/u16 (or a byte/char confusion) wraps here
     for (k, (mn, mx)) in [(None, Some(255u128)), (None, Some(256)), (Some(256u128), Some(257)), (Some(255), None), (Some(65535), Some(65536)), (Some(65536), None)].into_iter().enumerate() {
-        if tier == Tier::Quick && k >= 4 {
-            // the 64Ki bounds are thorough-only (long inputs)
-            continue;
-        }
         let mut vs = vec![];
         if let Some(m) = mn {
             vs.push(Vd::LenCharMin(Bound::lit(Val::U(m))));
@@ -923,6 +943,33 @@ pub fn arbitrary_string_subjects(tier: Tier, out: &mut Vec<Subj>) {
                 d.derives = vec![Tr::Debug, Tr::Clone, Tr::PartialEq, Tr::Eq, Tr::Arbitrary, Tr::TryFrom, Tr::Into, Tr::Display, Tr::AsRef];
                 out.push(Subj { decl: d, tag: "string/arb".into(), serde_full: false });
                 n += 1;
+            }
+        }
+    }
+    // the lower length limits the generator has to merge: `not_empty` next to a literal / constant
+    // `len_char_min` of 0, 1, 2 (in both written orders), with and without an upper limit and `trim`
+    let mut k = 0usize;
+    for mn in [0u128, 1, 2] {
+        for form in [Form::Const, Form::Lit] {
+            for (with_max, trim, ne_first) in [(false, false, true), (true, true, false), (true, false, true)] {
+                k += 1;
+                if tier == Tier::Quick && form == Form::Lit && k % 2 == 0 {
+                    continue;
+                }
+                let mut vs = vec![Vd::LenCharMin(Bound { v: Val::U(mn), form })];
+                if ne_first {
+                    vs.insert(0, Vd::NotEmpty);
+                } else {
+                    vs.push(Vd::NotEmpty);
+                }
+                if with_max {
+                    vs.push(Vd::LenCharMax(Bound { v: Val::U(3), form: if form == Form::Const { Form::Lit } else { Form::Const } }));
+                }
+                let mut d = Decl::new("X", Inner::Str);
+                d.sans = if trim { vec![San::Trim] } else { vec![] };
+                d.validation = Validation::Std(vs);
+                d.derives = vec![Tr::Debug, Tr::Clone, Tr::PartialEq, Tr::Eq, Tr::Arbitrary, Tr::TryFrom, Tr::Into, Tr::Display, Tr::AsRef];
+                out.push(Subj { decl: d, tag: "string/arb/lower-limits".into(), serde_full: false });
             }
         }
     }
